@@ -119,6 +119,7 @@ class SimProc:
         self.stopped_pending = []
         self.started_at = sim.now
         self.exited_at = None
+        self.run_done = False     # Process.run() has returned (the process may linger joining non-daemon threads)
 
     @property
     def alive(self):
